@@ -1485,7 +1485,14 @@ _g_ir_node_build_typelib (GIrNode         *node,
 		      array->tag = type->tag;
 		      array->zero_terminated = type->zero_terminated;
 		      array->has_length = type->has_length;
-                      array->has_size = type->has_size;
+                      /* The blob has room for one dimension and the length is
+                       * the one that is stored: do not claim a fixed size as
+                       * well, g_type_info_get_array_fixed_size() would return
+                       * the length index for it. (Types are shared by a key
+                       * that does not name the size of an array with a length,
+                       * so the claim also reached plain arrays with the same
+                       * length index.) */
+                      array->has_size = type->has_size && !type->has_length;
                       array->array_type = type->array_type;
 		      array->reserved2 = 0;
                       if (array->has_length)
